@@ -118,7 +118,7 @@ def run(rep, tier):
     ]
     vec = wd / "vectors.ndjson"
     ev_rand, ev_sym = wd / "z3rand.ndjson", wd / "sympy.ndjson"
-    nrand, nsym, stride = (300, 150, 2) if quick else (6000, 2500, 1)
+    nrand, nsym, stride = (200, 150, 2) if quick else (6000, 2500, 1)
 
     def mutants():
         ms = MUTANTS[:1] if quick else MUTANTS
